@@ -117,6 +117,20 @@ def props_report(prop, timeout=900):
     return res
 
 
+def coqchk(prop, timeout=2400):
+    """Independent re-check of Props/<prop>.vo and everything it depends on (thorough tier)."""
+    rc, out, dt = sh(f"timeout {timeout} coqchk -silent -o -R . HV HV.Props.{prop}", cwd=COQ, timeout=timeout + 60)
+    m = re.search(r"\* Axioms:(.*?)\n\s*\n\* Constants", out, re.S)
+    axioms = [a.strip() for a in (m.group(1).split("\n") if m else []) if a.strip() and a.strip() != "<none>"]
+    if rc == 0:
+        status = "ok"
+    elif rc == 124 or "[timeout]" in out:
+        status = "timeout"     # recorded, not a failure: coqchk re-runs kernel computations without the VM
+    else:
+        status = "failed"
+    return {"status": status, "axioms": axioms, "log": out[-3000:], "wall_s": round(dt, 1)}
+
+
 def audit():
     """Forbidden declarations / switches anywhere in the development."""
     bad = []
